@@ -26,7 +26,11 @@ func txRecord(tx *wire.MsgTx) map[string]interface{} {
 	for _, o := range tx.TxOut {
 		var v [8]byte
 		binary.BigEndian.PutUint64(v[:], uint64(o.Value))
-		outs = append(outs, map[string]interface{}{"value": ints(v[:]), "script": ints(o.PkScript)})
+		// the whole element: token data (CashTokens) belongs to the output
+		var tb [8]byte
+		binary.BigEndian.PutUint64(tb[:], o.TokenData.Amount)
+		tok := append(append(append([]byte{o.TokenData.BitField}, o.TokenData.CategoryID[:]...), tb[:]...), o.TokenData.Commitment...)
+		outs = append(outs, map[string]interface{}{"value": ints(v[:]), "script": ints(o.PkScript), "token": ints(tok)})
 	}
 	return map[string]interface{}{"version": int(tx.Version), "locktime": w32(tx.LockTime), "ins": ins, "outs": outs}
 }
@@ -45,7 +49,14 @@ func opTxSort(_ *HState, a Event) Event {
 	}
 	for _, x := range gList(a, "outs") {
 		m := x.(map[string]interface{})
-		tx.AddTxOut(wire.NewTxOut(int64(binary.BigEndian.Uint64(gBytes(m, "value"))), gBytes(m, "script"), wire.TokenData{}))
+		td := wire.TokenData{}
+		if tk := gBytes(m, "tok"); len(tk) > 0 { // an output carrying a fungible token amount and a commitment
+			td.BitField = 0x30 | tk[0]&0x0f
+			copy(td.CategoryID[:], tk)
+			td.Amount = uint64(tk[0]) + 1
+			td.Commitment = append([]byte{}, tk...)
+		}
+		tx.AddTxOut(wire.NewTxOut(int64(binary.BigEndian.Uint64(gBytes(m, "value"))), gBytes(m, "script"), td))
 	}
 	e := Event{"op": "TxSort", "tx": txRecord(tx)}
 	p, msg := guard(func() {
@@ -130,7 +141,11 @@ func runC18(c *Ctx) {
 			hk := r.Intn(18)
 			inEl = append(inEl, map[string]interface{}{"hash": ints(mkHash(hk)), "idx": w32([]uint32{0, 1, 2, 1 << 31, math.MaxUint32}[r.Intn(5)]),
 				"script": ints(scripts[r.Intn(len(scripts))]), "seq": w32(r.Uint32())})
-			outEl = append(outEl, map[string]interface{}{"value": ints(mkVal(r.Intn(7))), "script": ints(scripts[r.Intn(len(scripts))])})
+			oe := map[string]interface{}{"value": ints(mkVal(r.Intn(7))), "script": ints(scripts[r.Intn(len(scripts))])}
+			if k%2 == 1 {
+				oe["tok"] = ints([]byte{byte(k), 7})
+			}
+			outEl = append(outEl, oe)
 		}
 		if n >= 3 { // force ties: identical keys, identical whole elements
 			inEl[1] = map[string]interface{}{"hash": inEl[0].(map[string]interface{})["hash"], "idx": inEl[0].(map[string]interface{})["idx"], "script": ints([]byte{9}), "seq": w32(1)}
@@ -160,7 +175,11 @@ func runC18(c *Ctx) {
 			if r.Intn(3) == 0 {
 				sc = randBytes(r, r.Intn(30))
 			}
-			outs = append(outs, map[string]interface{}{"value": ints(mkVal(r.Intn(7))), "script": ints(sc)})
+			om := map[string]interface{}{"value": ints(mkVal(r.Intn(7))), "script": ints(sc)}
+			if r.Intn(4) == 0 {
+				om["tok"] = ints(randBytes(r, 1+r.Intn(6)))
+			}
+			outs = append(outs, om)
 		}
 		if ins == nil {
 			ins = []interface{}{}
